@@ -158,8 +158,10 @@ def brentLoop (eps t : α) (fline : α → α) : Nat → BrentSt α → Option (
     | .inl r => some r
     | .inr s' => brentLoop eps t fline k s'
 
-/-- the C loop has no cap; on every input of the differential runs it ends within a few dozen passes -/
-def brentFuel : Nat := 100000
+/-- the C loop has no cap. Most line searches end within a few dozen passes, but when the minimum sits at an end of the interval `brent()` creeps
+    towards it in steps of `tol` (2.4 million passes observed on a quadratic with `brent_rtol = 1e-6`): the fuel is what the C side can do
+    before the harness timer (8 s) declares a hang -/
+def brentFuel : Nat := 400000000
 
 /-- `brent()`: `(x, fx)`; `none` = fuel exhausted (a hang of the C code) -/
 def brentCG (cfg : MinCfg α) (fline : α → α) (a b : α) : Option (α × α) :=
